@@ -964,3 +964,12 @@ pub mod seek {
         range_bounds, Awaiting, RequestView, SeekSim, Source, StateView, Step,
     };
 }
+
+// H21 — The caches: the real `PageCache` (pinned upper levels + per-shard LRU, root slot), the real `LeafCache`
+// (sharded LRU keyed by leaf page number) and the real `PageSet` (working map + warmed-up map), driven call by call
+// over tagged pages; contents, limits and LRU order exposed.
+pub mod caches {
+    pub use crate::beatree::leaf_cache_verif::{set_observer as set_leaf_cache_observer, Kind as LeafCacheCall, LeafCacheSim};
+    pub use crate::merkle::page_set_verif::PageSetSim;
+    pub use crate::page_cache::verif::{PageCacheSim, ShardDump};
+}
